@@ -41,3 +41,9 @@ EXTRA += [
     ("C03", "DsProofs.Properties.C03Rows", ["C03_rows", "C03_rows_exprs", "C03_rows_uncaught", "C03_rowsTrue_spec"]),
     ("C04", "DsProofs.Properties.C04Rows", ["C04_rows_estimator", "C04_rows_uniform", "C04_rows_eq_brute", "C04_rows_uncaught"]),
 ]
+EXTRA += [
+    ("C01", "DsProofs.Properties.C01Rows", ["DsProofs.C01.argsortStable_sorts", "DsProofs.C01.argminFirst_spec", "DsProofs.C01.unitReduce_spec",
+                                             "DsProofs.C01.C01_rows_point", "DsProofs.C01.C01_rows_point_distinct", "DsProofs.C01.C01_rows_null_player_phi",
+                                             "DsProofs.C01.C01_rows_mapfork", "DsProofs.C01.C01_rows_mapfork_simple", "DsProofs.C01.C01_rows_present",
+                                             "DsProofs.C01.C01_score", "DsProofs.C01.C01_score_shapley", "DsProofs.C01.C01_score_rows", "DsProofs.C01.C01_score_accuracy"]),
+]
